@@ -82,6 +82,10 @@ def execute_step(env, step):
             highs_on_path = False
         else:
             cbc_exec = False
+    if fault.get("kind") == "vanishes_after_lookup":
+        # through BpSeq.dot_bracket the first look-up is rnapolis' own HiGHS_CMD().available(); with an explicit
+        # solver argument the only look-up is pulp's, just before it would start the process
+        fault["lookups"] = 1 if via == "property" else 0
     n_before = len(env.solves)
     solver = env.configure(backend, highs_on_path, cbc_exec, [fault])
     if via == "property":
